@@ -119,6 +119,14 @@ fn gate_cases(rng: &mut Rng) -> Vec<FileCase> {
         it.raw = Some(raw);
         out.push(FileCase { tag: format!("label-{}", i), ast: vec![it], exec: false, stack_hint: true, input: vec![] });
     }
+    // the four mnemonics only AFTER .end (nothing after .end is part of the program), and labels named like a stack pointer
+    for (j, text) in ["halt\n.end\npush r1\n", "halt\n.END\n  rets\n", "halt\n.end ; c\ncall nowhere\n", "halt\n.end\npop\n",
+                      "ld r6 SP\nhalt\nSP .fill x3006\n", "lea r0 sp\nhalt\nsp .fill #1\n", "ld r1 fp\nld r2 Sp\nhalt\nfp .fill #1\nSp .fill #2\n",
+                      "pusher halt\npopx add r0 r0 #1\nbr pusher\n"].iter().enumerate() {
+        let mut it = plain("halt");
+        it.raw = Some(text.to_string());
+        out.push(FileCase { tag: format!("plain-raw-{}", j), ast: vec![it], exec: true, stack_hint: false, input: vec![] });
+    }
     // programs that use none of the four mnemonics: image and behaviour must not depend on the flag
     for prog in catalogue().into_iter().filter(|p| !p.stack && !p.name.starts_with("rawd_off")) {
         out.push(FileCase { tag: format!("plain-{}", prog.name), ast: prog.ast, exec: true, stack_hint: false, input: prog.input });
